@@ -1,13 +1,18 @@
-"""C16 -- LU factorisation and triangular solves are correct, real and complex (exact small-integer domain).
+"""C16 -- LU factorisation and triangular solves are correct, real and complex (exact small-integer domain, graded by
+powers of two).
 
 Pipeline (model-based, TLA+ decides):
-  1. TLC explores spec/lu/MC_LU exhaustively: every small integer matrix (and Gaussian-integer matrix, and shape /
-     pivot-length case) is factorised and solved by the Level-B model (LU.tla: DEC/SOL, DECC/SOLC over exact rationals)
-     stage by stage, and the Level-A clauses of LUContract.tla (determinant / Cramer's rule, multiplier bound) are
-     checked on it (invariant Contract).  A violated invariant here is a tool-level problem, never a verdict.
+  1. TLC explores spec/lu/MC_LU: every small integer matrix (and Gaussian-integer matrix, and shape / pivot-length
+     case), graded versions D_r A D_c of them (power-of-two row / column scalings: all orders of three magnitudes in a
+     column, tiny pivots in every position; hash-sampled, the residue class follows the seed) and pseudo-random complex
+     3x3 / real 4x4 matrices (seeded) are factorised and solved by the Level-B model (LU.tla: DEC/SOL, DECC/SOLC over
+     exact rationals, the scaling enters the pivot search only) stage by stage, and the Level-A clauses of
+     LUContract.tla (determinant / Cramer's rule, multiplier bound, partial pivoting) are checked on it (invariant
+     Contract).  A violated invariant here is a tool-level problem, never a verdict.
   2. finished scenarios (thorough: a stratified subset) are emitted as REPLAY lines and executed on the REAL
      lu_decomp / lin_solve / lu_decomp_complex / lin_solve_complex by harness/src/bin/replay_lu.rs, on Full and on
-     wide Banded storage; the harness records result class, multiplier bound, factor, solution, untouched a / ip.
+     wide Banded storage; the harness records result class, multiplier bound, pivot rows, factor and solution (every
+     float exactly, as odd mantissa and binary exponent), untouched a / ip.
   3. TLC validates that trace against spec/lu/Trace_LU: Level-A clauses on what the code returned -> VIOL lines
      (-> VIOLATION); Level-B mismatches that keep the contract -> DRIFT lines.
 """
@@ -27,22 +32,34 @@ CHUNK = 2500          # at most this many scenarios per trace-validation TLC run
 PARALLEL = 12
 
 ASSUMPTIONS = [
-    "exact small-integer domain only: real 1x1 and 2x2 over -2..2, 3x3 over {-1,0,1} (thorough: 3x3 over -2..2), "
-    "complex 1x1 and 2x2 over Gaussian integers with parts in -1..1; the backward-stability bound for general float "
-    "matrices of size 4..12 is NOT decided here",
+    "exact small-integer domain, graded by powers of two: real 1x1 and 2x2 over -2..2, 3x3 over {-1,0,1} (thorough: 3x3 "
+    "over -2..2), complex 1x1 and 2x2 over Gaussian integers with parts in -1..1 -- all of them unscaled; in addition "
+    "D_r A D_c for the same matrices (3x3: over {-1,0,1}) with D_r, D_c diagonal powers of two (row scales 1,1/2,1/4 and "
+    "1,2^-30,2^-60 in every order, all 2^-60; one column 2^-60 in every position, graded columns; and products of these), "
+    "hash-sampled per (matrix, scaling) pair with the residue class chosen by the seed; pseudo-random (LCG, seeded) complex "
+    "3x3 matrices with parts in -1..1 and real 4x4 matrices over {-1,0,1}, unscaled and scaled; the backward-stability "
+    "bound for general float matrices of size 5..12 is NOT decided here",
     "a rational whose denominator is a power of two (dyadic) with a small numerator is exactly representable in f64, "
     "and IEEE +,-,*,/ are exact when the exact result is representable: on an all-dyadic elimination the code must "
-    "reproduce the exact rational result bit for bit",
-    "when a non-dyadic intermediate occurs the harness (replay_lu.rs) compares the float solution with the exact "
-    "rational carried by the scenario (echoed back and re-checked by TLC against Cramer's rule) in f64 with tolerance "
-    "16*n*eps*max(1,|x|_inf); for an exactly singular matrix on a non-dyadic path either result class is accepted",
-    "complex multiplier magnitude is the modulus (re^2+im^2 <= 1); the code pivots on |re|+|im|, which bounds the "
-    "modulus by 1 on this domain (checked exhaustively on the model)",
+    "reproduce the exact rational result bit for bit; scaling rows and columns by powers of two (|exponent| <= 150, far "
+    "from over/underflow) multiplies every intermediate by a power of two, so the same holds for the graded matrices "
+    "once the pivot search compares the scaled magnitudes (LU.tla ScLt)",
+    "when a non-dyadic intermediate occurs the harness (replay_lu.rs) compares the float solution, component j divided by "
+    "its scale 2^-cs[j], with the exact rational carried by the scenario (echoed back and re-checked by TLC against "
+    "Cramer's rule) in f64 with tolerance 16*n*eps*max(1,|x|_inf); for an exactly singular matrix on a non-dyadic path "
+    "either result class is accepted",
+    "multiplier bound: real |l| <= 1; complex re^2+im^2 <= 2 (the code pivots on |re|+|im|, which bounds the modulus by "
+    "sqrt 2), computed by the harness in f64 with relative slack 1e-12; the sharper statement is the pivot_max clause: TLC "
+    "re-runs the exact elimination along the pivot rows the code reported and requires each to hold a largest entry "
+    "(|.|, |re|+|im|; scaled) of its column -- distinct candidates differ by far more than rounding on this domain, "
+    "equally large candidates are all accepted",
     "the harness reads the factor back through the public Index API and compares a.data / ip bitwise before and "
     "after the solve; Banded storage uses ml = mu = n-1 so that the fill-in fits",
-    "thorough tier: the model covers every matrix; the replay covers all singular ones and a hash-sampled subset of "
-    "the others (fractions reported in coverage.replay_strata)",
-    "TLC and the CommunityModules Json/IOUtils modules are trusted",
+    "thorough tier: the model covers every unscaled matrix; the replay covers all singular ones and a hash-sampled subset "
+    "of the others (fractions reported in coverage.replay_strata); graded and pseudo-random scenarios are all replayed",
+    "TLC integers are 32-bit: magnitudes with exponents 20 or more apart are compared by exponent (LU.tla asserts that "
+    "the rationals involved are small enough for that to be exact)",
+    "TLC and the CommunityModules Json/IOUtils/SequencesExt modules are trusted",
 ]
 
 
@@ -174,10 +191,32 @@ def run(tier, seed, replay, keep, mutate=None):
             return ("singular" if e["singular"] else "swap" if e["swap"] else "noswap") + \
                    ("" if e["dec_dyadic"] else "_nondyadic")
         per_kind = collections.Counter(f"{s['sc']['kind']}/{s['sc']['n']}" for s in scen)
+        drift_kinds = collections.Counter()
+        for dl in drift:
+            dv = vlib.parse_tla(dl)[4]
+            drift_kinds["shape" if "model_class" not in dv else
+                        "class_where_either_is_allowed" if dv["model_class"] != dv["code_class"] else
+                        "pivot_row_among_equally_large" if dv["model_ip"] != dv["code_ip"] else "factor_entries"] += 1
+        per_fam = collections.Counter(f"{s['sc']['fam']}/{s['sc']['kind']}/{s['sc']['n']}" for s in scen)
+
+        def tiny_pos(s):
+            """position (0-based stage) of the model's pivots that are tiny (exponent <= -30) in a factorisable scenario"""
+            e = s["expect"]
+            if e["cls"] != "ok":
+                return []
+            lu = e["lu"]
+            ex = [(lu[i][i][2] if _kind(s["sc"]) == "real" else lu[i][i][0][2]) for i in range(s["sc"]["n"])]
+            return [i for i, v in enumerate(ex) if v <= -30]
+        tiny = collections.Counter()
+        for s in scen:
+            if s["sc"]["kind"] in ("real", "complex"):
+                n = s["sc"]["n"]
+                for i in tiny_pos(s):
+                    tiny["first" if i == 0 else "last" if i == n - 1 else "middle"] += 1
         strata = collections.Counter(stratum(s) for s in scen)
         n_rhs = sum(len(s["sc"]["bs"]) for s in scen if s["expect"]["cls"] == "ok")
         pick = [scen[(seed * 7919 + k * len(scen) // 3 + 17) % len(scen)] for k in range(3)]
-        samples = [{"scenario": {k: v for k, v in p["sc"].items() if k in ("kind", "n", "A", "AI", "bs", "rows", "cols", "iplen")},
+        samples = [{"scenario": {k: v for k, v in p["sc"].items() if k in ("fam", "kind", "n", "A", "AI", "bs", "rs", "cs", "rows", "cols", "iplen")},
                     "model_class": p["expect"]["cls"], "exact_solutions": p["expect"]["xe"][:1],
                     "all_dyadic": p["expect"]["dec_dyadic"]} for p in pick]
         cov = {
@@ -186,13 +225,17 @@ def run(tier, seed, replay, keep, mutate=None):
             "traces_validated_against_impl": len(scen), "trace_lines": nlines,
             "linear_systems_solved_by_impl_per_storage": n_rhs,
             "samples": samples, "drift": len(drift), "drift_samples": [vlib.parse_tla(d) for d in drift[:3]],
-            "per_kind_and_size": dict(per_kind), "replay_strata": dict(strata),
+            "drift_kinds": dict(drift_kinds),
+            "per_kind_and_size": dict(per_kind), "per_family_kind_and_size": dict(per_fam), "replay_strata": dict(strata),
+            "scenarios_with_tiny_pivot_by_position": dict(tiny),
             "worst_solution_error_in_n_eps": worst,
             "contract_failures_on_impl": len(viol), "known_findings_matched": n_known,
             "exhaustive": True,
             "rule": "TLC enumerates every matrix of MC_LU (" + cfg + ") with its right-hand sides and every shape / pivot-length "
-                    "case; each is one behaviour of the model (factorisation stage by stage, then the solves); selected "
-                    "scenarios (quick: all; thorough: all singular + hash-sampled others) are replayed on the real code on "
+                    "case (family exh), hash-sampled power-of-two gradings of them (family graded) and seeded pseudo-random "
+                    "complex 3x3 / real 4x4 matrices with gradings (family lcg); each is one behaviour of the model "
+                    "(factorisation stage by stage, then the solves); selected scenarios (quick: all; thorough: all singular "
+                    "+ hash-sampled others of family exh, all of the other families) are replayed on the real code on "
                     "Full and Banded storage and the recorded trace is validated by TLC against Trace_LU",
         }
         vlib.write_evidence(PROP, tier, seed, "model_checking", cov, ASSUMPTIONS, time.time() - t_start, n_new)
